@@ -698,6 +698,19 @@ func runC02(c *Ctx) {
 				}
 				continue
 			}
+			// max(n-i, 0) / max(0, n-i): the clamp as one builtin call
+			for _, rt := range Roots(v, false) {
+				if cl, ok := rt.(*ssa.Call); ok {
+					if b, isB := cl.Call.Value.(*ssa.Builtin); isB && b.Name() == "max" && len(cl.Call.Args) == 2 {
+						a0, a1 := cl.Call.Args[0], cl.Call.Args[1]
+						k0, c0 := ConstInt(a0)
+						k1, c1 := ConstInt(a1)
+						if (c1 && k1 == 0 && isDiff(a0)) || (c0 && k0 == 0 && isDiff(a1)) {
+							okZero, okVal = true, true
+						}
+					}
+				}
+			}
 			if isDiff(v) {
 				// ... and the difference itself only where it is known not to be negative
 				for _, f := range CmpFactsAt(r) {
